@@ -560,6 +560,9 @@ func RunL1(line string) string {
 	return strings.Join(toks, " ")
 }
 
+// ForwardGoroutines is forwardGoroutines for the other areas of this slice.
+func ForwardGoroutines() int { return forwardGoroutines() }
+
 // forwardGoroutines counts goroutines that still execute code of ProxyForwarder (after the call ended).
 func forwardGoroutines() int {
 	buf := make([]byte, 1<<18)
